@@ -101,6 +101,10 @@ def eval_expression(expr: str, context: dict) -> Any:
                     # Escape special characters
                     value = escape_special_string_characters(value)
 
+                    # Curly brackets in the value are text: we double them so that the
+                    # unescaping of double curly brackets below gives them back unchanged
+                    value = value.replace("{", "{{").replace("}", "}}")
+
                     inner_expression_values.append(value)
                 string_expression = re.sub(
                     expression_pattern,
